@@ -866,7 +866,12 @@ class EventBus:
     async def _run_loop(self) -> None:
         """Main event processing loop"""
         try:
+            current_task = asyncio.current_task()
             while self._is_running:
+                # a cancellation that was swallowed further down (e.g. by the cleanup awaits in execute_handler)
+                # must still end the loop, otherwise asyncio.run() can never finish its shutdown
+                if current_task is not None and current_task.cancelling():
+                    break
                 try:
                     _processed_event = await self.step()
                     # Check if we should set idle state after processing
@@ -924,8 +929,13 @@ class EventBus:
                     self._on_idle.set()
                 return None
 
-        except (asyncio.CancelledError, RuntimeError, QueueShutDown):
-            # Clean cancellation during shutdown or queue was shut down
+        except asyncio.CancelledError:
+            # The run loop task itself is being cancelled (stop() / asyncio.run() teardown): clean up the
+            # pending queue.get() and let the cancellation propagate so that _run_loop() exits
+            get_next_queued_event.cancel()
+            raise
+        except (RuntimeError, QueueShutDown):
+            # Queue was shut down or the event loop is closing
             return None
 
     async def step(
